@@ -210,45 +210,73 @@ def main(tier):
         exp = check_line(line, "generated")
         if exp and MARK in exp[1]:
             check_compound(exp[1], "generated")
-    # the loader on a scratch file built from generated well-formed lines
-    tmp = tempfile.mkdtemp(prefix="verif-c19-")
-    try:
-        import rzilcompiler.Preprocessor.Hexagon.PreprocessorHexagon as M
+    # the loader on scratch files built from generated well-formed lines (several layouts: spacing around the compound markers,
+    # #line directives between definitions, last line without newline)
+    import rzilcompiler.Preprocessor.Hexagon.PreprocessorHexagon as M
 
-        lines = []
-        expect = {}
-        for i in range(200):
-            name = f"G{i}"
-            if i % 5 == 0:
-                body = "{ " + MARK + "{ " + gen_body(rng) + "; }" + MARK + gen_body(rng) + "; }"
-            else:
-                body = "{ " + gen_body(rng) + "; }"
-            lines.append(f"insn({name}, {body})\n")
-            expect[name] = body
-        fpath = os.path.join(tmp, "resolved.h")
-        with open(fpath, "w") as f:
-            f.write("# 1 \"x\"\n")
-            f.writelines(lines)
-        orig = M.Conf.get_path
-        M.Conf.get_path = staticmethod(lambda file, arch_name="": fpath if "SHORTCODE_RESOLVED_H" in repr(file) or str(file).endswith("shortcode_resolved.h") else orig(file, arch_name))
+    scratch_files = 0
+    scratch_entries = 0
+    for fno in range(3 if tier == "quick" else 40):
+        tmp = tempfile.mkdtemp(prefix="verif-c19-")
         try:
-            pp2 = PP(fpath)
-            type(pp2).behaviors = dict()
-            pp2.load_insn_behavior()
-            got = dict(pp2.behaviors)
+            lines = []
+            expect = {}
+            r3 = random.Random(f"{run.seed}:scratch:{fno}")
+            for i in range(200):
+                name = f"G{fno}_{i}"
+                if i % 5 == 0:
+                    sp1, sp2, sp3 = (r3.choice(["", " ", "  ", "\t"]) for _ in range(3))
+                    body = "{" + sp1 + MARK + "{ " + gen_body(r3) + "; }" + MARK + sp2 + gen_body(r3) + ";" + sp3 + "}"
+                else:
+                    body = "{ " + gen_body(r3) + "; }"
+                if r3.random() < 0.1:
+                    lines.append(r3.choice([f"# {i} \"macros.h\"\n", "# 1 \"<built-in>\"\n", "#line 3\n"]))  # (an empty line may be rejected: not used)
+                lines.append(f"insn({name}, {body})\n")
+                expect[name] = body
+            if fno % 2:
+                lines[-1] = lines[-1].rstrip("\n")
+            fpath = os.path.join(tmp, "resolved.h")
+            with open(fpath, "w") as f:
+                f.write("# 1 \"x\"\n")
+                f.writelines(lines)
+            orig = M.Conf.get_path
+            M.Conf.get_path = staticmethod(lambda file, arch_name="": fpath if "SHORTCODE_RESOLVED_H" in repr(file) or str(file).endswith("shortcode_resolved.h") else orig(file, arch_name))
+            pp2 = None
+            try:
+                pp2 = PP(fpath)
+                type(pp2).behaviors = dict()
+                pp2.load_insn_behavior()
+                got = dict(pp2.behaviors)
+            except Exception as e:  # noqa
+                got = None
+                err = repr(e)[:200]
+            finally:
+                M.Conf.get_path = orig
+                if pp2 is not None:
+                    type(pp2).behaviors = dict()
+            cases += 1
+            scratch_files += 1
+            if got is None:
+                run.violation(f"load_insn_behavior raises on a well-formed scratch file: {err}", {"kind": "loader_scratch", "file": "".join(lines)[:4000]}, key="loader_scratch_raise")
+                continue
+            if sorted(got) != sorted(expect):
+                run.violation(f"load_insn_behavior on a scratch file: {len(got)} entries for {len(expect)} lines", {"kind": "loader_scratch", "missing": sorted(set(expect) - set(got))[:5]}, key="loader_scratch")
+            for n, b in expect.items():
+                scratch_entries += 1
+                if n not in got:
+                    continue
+                if MARK in b:
+                    want = strip_outer(tokens(b.replace(MARK, " ")))
+                    ok = len(got[n]) == 2 and balanced(got[n][0]) and balanced(got[n][1]) and strip_outer(tokens(got[n][1])) is not None \
+                        and tokens(got[n][0]) + strip_outer(tokens(got[n][1])) == want
+                else:
+                    ok = len(got[n]) == 1 and got[n][0] == b
+                if not ok:
+                    run.violation(f"load_insn_behavior on a scratch file: entry {n} wrong", {"kind": "loader_scratch", "name": n, "body": b, "got": got[n]}, key="loader_scratch_entry")
         finally:
-            M.Conf.get_path = orig
-            type(pp2).behaviors = dict()
-        cases += 1
-        if sorted(got) != sorted(expect):
-            run.violation(f"load_insn_behavior on a scratch file: {len(got)} entries for {len(expect)} lines", {"kind": "loader_scratch"}, key="loader_scratch")
-        for n, b in expect.items():
-            if n in got and ((len(got[n]) == 2) != (MARK in b) or (len(got[n]) == 1 and got[n][0] != b)):
-                run.violation(f"load_insn_behavior on a scratch file: entry {n} wrong", {"kind": "loader_scratch", "name": n, "body": b, "got": got[n]}, key="loader_scratch_entry")
-    finally:
-        for f in os.listdir(tmp):
-            os.unlink(os.path.join(tmp, f))
-        os.rmdir(tmp)
+            for f in os.listdir(tmp):
+                os.unlink(os.path.join(tmp, f))
+            os.rmdir(tmp)
     run.assumptions = ["a well-formed line is `insn(` at the start, a \\w+ name, `, `, a body up to the matching parenthesis (string-aware), then only a newline",
                        "raising on any line is allowed; returning something else than (NAME, BODY) or accepting a malformed line is not"]
     run.finish({
@@ -256,6 +284,7 @@ def main(tier):
         "rule": "one case = one line (or compound body) handed to the real function and to the independent splitter; distinct non-trivial = distinct well-formed "
                 "bodies containing ( ) , or { that were recovered exactly, and compound bodies split without loss",
         "samples": samples or [{"note": "none"}], "bundled_lines": len(bundled), "bundled_compounds": ncomp, "generated_lines": ngen,
+        "scratch_files_loaded": scratch_files, "scratch_entries_compared": scratch_entries,
     }, hard_inconclusive=None if cases > 1000 else "too few lines")
 
 
